@@ -73,6 +73,29 @@ func Content(r *Rand, class string, w, h, c, p, aux int) []int {
 				}
 			}
 		}
+	case "ffdense":
+		// left / upper differences of +2^(P-1)-1 almost everywhere (at P = 16 every such sample is
+		// coded as 7F FF + stuffing when its category has the 1-bit code: a 0xFF every third scan
+		// byte), with about 1 % other differences that shift the phase of that pattern, so that
+		// over a long scan a 0xFF falls on every byte offset class (buffer and block boundaries)
+		step := max / 2
+		for y := 0; y < h; y++ {
+			for k := 0; k < c; k++ {
+				v := 0
+				if y > 0 {
+					v = (*at(0, y-1, k) + step) & max
+				}
+				for x := 0; x < w; x++ {
+					if x > 0 {
+						v = (v + step) & max
+					}
+					if r.Chance(1, 100) {
+						v = (v + 1 + r.Intn(7)) & max
+					}
+					*at(x, y, k) = v
+				}
+			}
+		}
 	case "blocks8":
 		// every aligned 8x8 cell entirely 0 or entirely MAXVAL (largest legal DC differences
 		// between neighbouring DCT blocks; flat blocks next to saturated ones)
